@@ -99,7 +99,8 @@ type Datagram struct {
 	SrcIP   []byte
 	SrcPort int
 	SrcZone string
-	IfIndex int // receiving interface (control message); 0 = none
+	IfIndex int // receiving interface; reaches the server in a control message only if the socket asked for one
+	DstIP   []byte
 }
 
 type port struct {
@@ -109,6 +110,34 @@ type port struct {
 	closed bool
 	inbox  []Datagram
 	reads  int
+	// the socket as the server configured it (NewIPv4UDPConn/NewIPv6UDPConn, SetControlMessage, JoinGroup)
+	zone    string
+	bindIf  int
+	ip      []byte
+	portNum int
+	cflags  int // ControlFlags enabled through SetControlMessage
+	groups  []GroupJoin
+}
+
+// GroupJoin is one multicast membership requested on a socket.
+type GroupJoin struct {
+	IfIndex int
+	Group   []byte
+}
+
+// PortInfo describes a simulated socket to the world (scheduler context).
+type PortInfo struct {
+	ID      int
+	V6      bool
+	Inc     int
+	Closed  bool
+	Zone    string
+	BindIf  int
+	IP      []byte
+	Port    int
+	CFlags  int
+	Groups  []GroupJoin
+	Backlog int
 }
 
 type event struct {
@@ -180,6 +209,7 @@ type Sim struct {
 	poolReuse         int // 0: fifo fresh (no reuse), 1: PRNG choice, 2: always reuse most recent
 	poolKeepStale     bool
 	fakeFD            int
+	sockFailIn        int
 	l2socks           []l2sock
 	ReadFileLog       []ReadFileRec
 	readFileErrIn     int
@@ -237,13 +267,15 @@ const (
 	FSetupFail
 	FBadArgs
 	FTimeSkip
+	FSockErr
+	FSockClose
 	NumFaultKinds
 )
 
 var FaultNames = [NumFaultKinds]string{"datagram_drop", "datagram_dup", "datagram_delay_reorder", "datagram_corrupt", "datagram_replay_old",
 	"preemption", "task_stall", "clock_jump", "crash_restart", "crash_in_setup", "sql_call_fail", "file_torn_rewrite", "file_rename_over",
 	"file_unlink_recreate", "inotify_coalesce", "inotify_overflow", "readfile_error", "buffer_reuse", "map_order_shuffle",
-	"plugin_setup_failure", "invalid_plugin_args", "time_passes_while_handler_in_flight"}
+	"plugin_setup_failure", "invalid_plugin_args", "time_passes_while_handler_in_flight", "socket_open_error", "socket_closed_under_server"}
 
 //go:norace
 func pipe2() (int, int) {
